@@ -158,8 +158,13 @@ class SimComp(TimeComponent):
         pi = {o["name"]: Info(time=self.time, grid=NoGrid(), units=o.get("units", ""))
               for o in s["outputs"] if not o.get("info_at_init", True)}
         pd = {o["name"]: self.out_value(oi, 0) for oi, o in enumerate(s["outputs"])}
-        if s.get("init_dep") and not all(d is not None for d in self.connector.in_data.values()):
-            pd = {}          # initial output data is computed from the initially pulled inputs
+        dep = s.get("init_dep")
+        if dep:
+            # initial output data is computed from the initially pulled inputs (all of them, or the named subset:
+            # the component then publishes while it still waits for its other inputs)
+            need = self.connector.in_data if dep is True else {k: v for k, v in self.connector.in_data.items() if k in dep}
+            if not all(d is not None for d in need.values()):
+                pd = {}
         self.try_connect(start_time, exchange_infos=ex, push_infos=pi, push_data=pd)
         if self.status == ComponentStatus.CONNECTED:
             for name, d in self.connector.in_data.items():
